@@ -424,6 +424,31 @@ def _ctor_only(M, m, depth=0):
     return True
 
 
+def _field_is_read(M, fld):
+    """some code loads <x>.<fld> for its value: not merely as the container being stored into (x.f[k] = v) or grown by a statement-level mutator call"""
+    for fn in M.all_funcs():
+        if fn.parent is not None:
+            continue
+        pm = None
+        for n in ast.walk(fn.node):
+            if isinstance(n, ast.Attribute) and n.attr == fld and isinstance(n.ctx, ast.Load):
+                if pm is None:
+                    pm = parent_map(fn.node)
+                top = n
+                while isinstance(pm.get(top), ast.Subscript) and pm[top].value is top:
+                    top = pm[top]
+                par = pm.get(top)
+                if isinstance(top, ast.Subscript) and isinstance(top.ctx, ast.Store) and isinstance(par, (ast.Assign, ast.AnnAssign)):
+                    continue          # x.f[k] = v (not `+=`, which reads)
+                if top is n and isinstance(par, ast.Subscript) and isinstance(par.ctx, ast.Store):
+                    continue
+                if isinstance(par, ast.Attribute) and par.attr in (MUTATORS | {'add', 'appendleft'}) and par.attr not in ('pop', 'popleft', 'popitem', 'get', 'setdefault') \
+                        and isinstance(pm.get(par), ast.Call) and isinstance(pm.get(pm[par]), ast.Expr):
+                    continue          # x.f.append(v) as a statement
+                return True
+    return False
+
+
 def _is_local(fn, name):
     for n in ast.walk(fn.node):
         if isinstance(n, ast.Assign):
@@ -434,15 +459,211 @@ def _is_local(fn, name):
 
 
 # ------------------------------------------------------------------------------------------------ memoisation
+IMMUTABLE_EXT = {'INT', 'FLOAT', 'ROUND', 'STR', 'LEN', 'SUM', 'MAX', 'MIN', 'ABS', 'FLOOR', 'CEIL', 'TRUNC', 'SQRT', 'ISNAN', 'ISCLOSE', 'MISCLOSE', 'BOOL', 'ANY', 'ALL', 'TUPLE',
+                 'builtins.frozenset', 'pandas.Timestamp', 'pandas.Timedelta', 'pandas.to_datetime', 'datetime.datetime', 'datetime.date', 'datetime.time', 'datetime.timedelta', 'NAN',
+                 'COPYSIGN', 'EXP', 'LOG', 'MOD', 'FLOORDIV', 'REPR', 'HASH'}
+MUTABLE_EXT = {'LIST', 'DICT', 'SET', 'SORTED', 'CONCAT', 'APPENDED', 'EXTENDED', 'UPDATED', 'SETITEM', 'collections.deque', 'collections.OrderedDict', 'collections.defaultdict',
+               'pandas.DataFrame', 'pandas.Series', 'ARRAY', 'numpy.asarray', 'numpy.zeros', 'numpy.ones', 'numpy.empty', 'COPY', 'copy.deepcopy', 'DICT.fromkeys'}
+
+
+def _mutability(t):
+    """'immutable' | 'flat' (a mutable container of immutable/opaque elements) | 'deep' (mutable objects inside a mutable container) | 'unknown'"""
+    h = t[0]
+    if h in ('num', 'str', 'const', 'fmt', 'cmp', 'not', 'and', 'or', 'rat', 'ext', 'fn', 'pow'):
+        return 'immutable'
+    if h == 'tuple':
+        ks = {_mutability(x) for x in t[1]}
+        return 'immutable' if ks <= {'immutable'} else ('unknown' if ks <= {'immutable', 'unknown'} else 'deep')
+    if h in ('list', 'set'):
+        ks = {_mutability(x) for x in t[1]}
+        return 'flat' if ks <= {'immutable', 'unknown'} else 'deep'
+    if h == 'dict':
+        ks = {_mutability(v) for _, v in t[1]}
+        return 'flat' if ks <= {'immutable', 'unknown'} else 'deep'
+    if h == 'comp':
+        elt = t[2]
+        if t[1] == 'dict' and elt[0] == 'tuple' and len(elt[1]) == 2:
+            elt = elt[1][1]
+        k = _mutability(elt)
+        return 'flat' if k in ('immutable', 'unknown') else 'deep'
+    if h == 'accum':
+        return 'flat'
+    if h == 'new':
+        return 'deep'
+    if h == 'ite':
+        ks = {_mutability(t[2]), _mutability(t[3])}
+        for k in ('deep', 'flat', 'unknown'):
+            if k in ks:
+                return k
+        return 'immutable'
+    if h == 'call' and t[1][0] == 'ext':
+        if t[1][1] in IMMUTABLE_EXT:
+            return 'immutable'
+        if t[1][1] in MUTABLE_EXT:
+            inner = {_mutability(a) for a in t[2]} | {_mutability(v) for _, v in t[3]}
+            return 'deep' if (inner & {'flat', 'deep'}) and t[1][1] not in ('SORTED', 'LIST', 'SET') else 'flat'
+        return 'unknown'
+    if h in ('var', 'attr', 'sub', 'elem', 'bv'):
+        return 'unknown'
+    return 'unknown'
+
+
+def new_memo(ctx, f):
+    """A memoised function outside the table.  Answering from the cache equals recomputing when the body (a) has no effect, (b) reads nothing that can change
+    between calls except its arguments, and (c) hands out a value no caller changes: an immutable value, or a container that every call site only reads."""
+    from ..lib import all_terms_of
+    from ..symex import Undecided
+    M = ctx.M
+    inst = 'memoised function %s gives the answer a fresh computation would give' % f.qn
+    try:
+        ps = summarise(ctx, f, policy=default_policy)
+    except Undecided as u:
+        ctx.undecided('C18.memo', inst, f.site(), 'body not summarised: %s' % str(u)[:120])
+        return
+    open_ = []
+    for p in ps:
+        ws = heap_writes(p)
+        if ws:
+            ctx.violation('C18.memo', '%s has no side effect (a cached call skips it)' % f.qn, ws[0].site, '%s %s' % (ws[0].how, fmt(ws[0].loc)[:80]), key='C18.memo|pure|%s' % f.qn)
+            return
+        for t in all_terms_of(p):
+            for s in T.subterms(t):
+                if s[0] == 'attr' and s[1] == V('self') and f.cls is not None and M.field_written_outside_init(f.cls, s[2]):
+                    ctx.violation('C18.memo', '%s reads only its arguments and state fixed at construction' % f.qn, f.site(),
+                                  'self.%s is rewritten after construction: a cached answer goes stale' % s[2], key='C18.memo|reads|%s' % f.qn)
+                    return
+                if s[0] == 'call' and s[1][0] == 'ext' and any(s[1][1].startswith(px) for px in RANDOM_PREFIXES):
+                    ctx.violation('C18.memo', '%s reads only its arguments and state fixed at construction' % f.qn, f.site(), 'calls %s' % s[1][1], key='C18.memo|reads|%s' % f.qn)
+                    return
+                if s[0] == 'attr' and s[1][0] == 'mod' and s[1][1].split('.')[-1] == 'settings':
+                    open_.append('reads settings.%s' % s[2])
+    if f.cls is not None and not f.is_static and ('__eq__' in f.cls.methods or '__hash__' in f.cls.methods):
+        ctx.violation('C18.memo', '%s is keyed by instance identity (the class defines no __eq__/__hash__)' % f.qn, f.site(),
+                      'value-based equality lets two objects with different contents share cache entries', key='C18.memo|identity|%s' % f.qn)
+        return
+    vals = [p.value for p in ps if p.outcome == 'return' and p.value is not None]
+    kinds = {_mutability(v) for v in vals}
+    if kinds <= {'immutable'}:
+        if open_:
+            ctx.undecided('C18.memo', inst, f.site(), '; '.join(sorted(set(open_))[:3]))
+        else:
+            ctx.holds('C18.memo', inst + ' (no effect, reads its arguments and construction-time state, returns an immutable value)', f.site())
+        return
+    deep = 'deep' in kinds
+    # the cached object is handed to every caller: what do the call sites do with it?  A caller that returns it hands it on to its own callers.
+    verdict = []
+    visited = set()
+
+    def uses_of(src, depth):
+        sites = M.call_sites(src.qn)
+        if not sites:
+            open_.append('no call site of %s was resolved' % src.qn)
+            return
+
+        def keep_call(caller, callee, depth_):
+            return callee.qn != src.qn and default_policy(caller, callee, depth_)
+        for caller, node in sites:
+            host = caller
+            while getattr(host, 'parent', None) is not None:
+                host = host.parent
+            if (src.qn, host.qn) in visited:
+                continue
+            visited.add((src.qn, host.qn))
+            try:
+                cps = summarise(ctx, host, policy=keep_call)
+            except Undecided as u:
+                open_.append('call site in %s not summarised' % host.qn)
+                continue
+            hands_on = False
+            for p in cps:
+                evs = list(p.flat_events())
+                for e in evs:
+                    if e.kind != 'call' or src.qn not in e.callee:
+                        continue
+                    R = e.result
+                    for w in evs:
+                        if w.kind != 'write':
+                            continue
+                        base = w.loc
+                        while base[0] in ('sub', 'attr') and base != R:
+                            base = base[1]
+                        if base == R and (str(w.how).startswith('mut:') or w.loc != R):
+                            verdict.append((w.site, '%s on the memoised result in %s: every later call with the same arguments sees the change' % (w.how, host.qn)))
+                            return
+                        if w.value is not None and not w.d.get('local') and any(s_ == R for s_ in T.subterms(w.value)):
+                            shallow = w.value != R and all(_wrapped_by_copy(w.value, R))
+                            if deep or not shallow:
+                                verdict.append((w.site, 'the memoised %s is stored into %s in %s: objects built once are shared by every holder' % (
+                                    'container of mutable objects' if deep else 'object', fmt(w.loc)[:60], host.qn)))
+                                return
+                    for c2 in evs:
+                        if c2.kind == 'call' and c2 is not e and any(not q.startswith(('ext:', 'meth:')) for q in c2.callee) and \
+                                any(R == a_ or (isinstance(a_, tuple) and any(s_ == R for s_ in T.subterms(a_))) for a_ in c2.args.values()):
+                            open_.append('the memoised result is passed on to %s' % '|'.join(c2.callee)[:60])
+                    if p.outcome == 'return' and p.value is not None and any(s_ == R for s_ in T.subterms(p.value)) and (deep or not all(_wrapped_by_copy(p.value, R))):
+                        hands_on = True
+            if hands_on:
+                if depth >= 4:
+                    open_.append('the memoised result is handed on through %s and further' % host.qn)
+                else:
+                    uses_of(host, depth + 1)
+                    if verdict:
+                        return
+    uses_of(f, 0)
+    if verdict:
+        ctx.violation('C18.memo', 'the value %s hands out is never changed by a caller (it is the cached object itself)' % f.qn, verdict[0][0], verdict[0][1], key='C18.memo|aliased|%s' % f.qn)
+    elif open_:
+        ctx.undecided('C18.memo', inst, f.site(), '; '.join(sorted(set(open_))[:3]))
+    else:
+        ctx.holds('C18.memo', inst + ' (no effect; the mutable result is only read where it is used)', f.site())
+
+
+def _wrapped_by_copy(t, R):
+    """for every occurrence of R in t: is it under a copying constructor (list(R), sorted(R), a comprehension over R, dict(R), R.copy())?  -> iterable of bools"""
+    out = []
+
+    def walk(x, copied):
+        if x == R:
+            out.append(copied)
+            return
+        if not isinstance(x, tuple):
+            return
+        c2 = copied
+        if x[0] == 'call' and x[1] in (('ext', 'LIST'), ('ext', 'SORTED'), ('ext', 'DICT'), ('ext', 'SET'), ('ext', 'TUPLE'), ('meth', 'copy'), ('ext', 'COPY'), ('ext', 'copy.deepcopy')):
+            c2 = True
+        if x[0] == 'comp':
+            for shape, src, conds in x[3]:
+                walk(src, True)
+                for c_ in conds:
+                    walk(c_, copied)
+            walk(x[2], copied)
+            return
+        for y in x[1:]:
+            if isinstance(y, tuple):
+                if y and isinstance(y[0], str):
+                    walk(y, c2)
+                else:
+                    for z in y:
+                        if isinstance(z, tuple):
+                            if z and isinstance(z[0], str):
+                                walk(z, c2)
+                            else:
+                                for q in z:
+                                    if isinstance(q, tuple) and q and isinstance(q[0], str):
+                                        walk(q, c2)
+    walk(t, False)
+    return out or [True]
+
+
 def memoisation(ctx):
     M = ctx.M
     cached = [f for f in M.all_funcs() if f.is_cached]
     ctx.floor('C18.memo', 'memoised functions', len(cached), 0)
     for f in cached:
-        ctx.require(f.qn in TABLED_CACHED, 'C18.memo', 'memoised function %s is tabled and discharged' % f.qn, f.site(),
-                    'a new memo must be shown to depend on its arguments and immutable state only', key='C18.memo|untabled|%s' % f.qn)
         if f.qn not in TABLED_CACHED:
+            new_memo(ctx, f)
             continue
+        ctx.holds('C18.memo', 'memoised function %s is tabled and discharged' % f.qn, f.site())
         ps = summarise(ctx, f, policy=default_policy)
         for p in ps:
             ws = heap_writes(p)
@@ -463,7 +684,10 @@ def memoisation(ctx):
     ws = writers_of_attr(M, 'asset_bid_ask_frames')
     ctx.require(len(ws) == 1 and ws[0].fn.qn == 'CSVDailyBarDataSource.__init__', 'C18.memo', 'the memoised lookups depend on frames written once, in the constructor',
                 ws[0].where if ws else None, [w.fn.qn for w in ws], key='C18.memo|frames')
-    # hand-rolled memo dictionaries: a field that is both read and element-written outside __init__ in a class on the pricing/alpha path
+    # hand-rolled state: a field written outside __init__ in a class on the pricing/alpha path.  Harmless when nothing ever reads it back (a record), or
+    # when it is a memo table whose key carries every argument the stored value depends on; otherwise later answers depend on earlier queries.
+    from ..lib import memo_tables
+    from ..symex import Undecided
     for cname in ('CSVDailyBarDataSource', 'BacktestDataHandler', 'SingleSignalAlphaModel', 'FixedSignalsAlphaModel', 'StaticUniverse', 'DynamicUniverse',
                   'FixedWeightPortfolioOptimiser', 'EqualWeightPortfolioOptimiser', 'PercentFeeModel', 'ZeroFeeModel', 'SimulatedExchange',
                   'DollarWeightedCashBufferedOrderSizer', 'LongShortLeveragedOrderSizer', 'PortfolioConstructionModel', 'ExecutionHandler', 'QuantTradingSystem'):
@@ -473,6 +697,7 @@ def memoisation(ctx):
         for name, m in sorted(c.methods.items()):
             if name == '__init__' or _ctor_only(M, m):
                 continue
+            found = {}          # field -> (node, how)
             for n in ast.walk(m.node):
                 tg = []
                 if isinstance(n, ast.Assign):
@@ -484,8 +709,7 @@ def memoisation(ctx):
                     while isinstance(b, ast.Subscript):
                         b = b.value
                     if isinstance(b, ast.Attribute) and isinstance(b.value, ast.Name) and b.value.id == 'self':
-                        ctx.violation('C18.memo', 'stateless components keep no state between calls (%s)' % m.qn, m.site(n),
-                                      'self.%s is written outside the constructor: results depend on the history of earlier queries' % b.attr, key='C18.memo|state|%s|%s' % (m.qn, b.attr))
+                        found.setdefault(b.attr, (n, 'written'))
                 # in-place growth of a container held in a field is the same thing (self._seen.append(x), self._cache.setdefault(k, v), ...)
                 if isinstance(n, ast.Call) and isinstance(n.func, ast.Attribute) and n.func.attr in (MUTATORS | {'setdefault', 'add', 'discard', 'popitem', 'appendleft', 'sort', 'reverse'}):
                     b = n.func.value
@@ -495,9 +719,37 @@ def memoisation(ctx):
                         tys = M.expr_types(m, n.func.value, M.local_env(m))
                         repo_typed = any(M.cls(t_) is not None and M.cls(t_).lookup(n.func.attr) is not None for t_ in tys)
                         if not repo_typed:
-                            ctx.violation('C18.memo', 'stateless components keep no state between calls (%s)' % m.qn, m.site(n),
-                                          'self.%s is grown in place (.%s) outside the constructor: results depend on the history of earlier queries' % (b.attr, n.func.attr),
-                                          key='C18.memo|state|%s|%s' % (m.qn, b.attr))
+                            found.setdefault(b.attr, (n, 'grown in place (.%s)' % n.func.attr))
+            if not found:
+                continue
+            memos = None
+            for fld, (n, how) in sorted(found.items()):
+                if not _field_is_read(M, fld):
+                    ctx.holds('C18.memo', '%s records into self.%s, which nothing reads back' % (m.qn, fld), m.site(n))
+                    continue
+                if memos is None:
+                    try:
+                        memos = memo_tables(ctx, m, summarise(ctx, m, policy=default_policy))
+                    except Undecided:
+                        memos = {}
+                mt = memos.get(fld)
+                shared = any(fld in k.class_attrs for k in c.mro()) and not any(w.fn.name == '__init__' or _ctor_only(M, w.fn) for w in writers_of_attr(M, fld, owner=cname))
+                if mt is not None and mt[0] == 'sound' and not shared:
+                    ctx.holds('C18.memo', '%s: self.%s is a memo table keyed by every argument its entries depend on (%s)' % (m.qn, fld, fmt(mt[1])[:60]), m.site(n))
+                    continue
+                if mt is not None and mt[0] == 'sound' and shared:
+                    ctx.violation('C18.memo', 'stateless components keep no state between calls (%s)' % m.qn, m.site(n),
+                                  'the memo table %s is a class attribute never rebound per instance: every %s shares it, and its key %s does not identify the instance'
+                                  % (fld, cname, fmt(mt[1])[:60]), key='C18.memo|state|%s|%s' % (m.qn, fld))
+                    continue
+                if mt is not None and mt[0] == 'unsound':
+                    ctx.violation('C18.memo', 'stateless components keep no state between calls (%s)' % m.qn, m.site(n),
+                                  'self.%s memoises under the key %s, which leaves out %s: a later query is answered with an earlier one\'s value' % (fld, fmt(mt[1])[:60], ', '.join(mt[2])),
+                                  key='C18.memo|state|%s|%s' % (m.qn, fld))
+                    continue
+                ctx.violation('C18.memo', 'stateless components keep no state between calls (%s)' % m.qn, m.site(n),
+                              'self.%s is %s outside the constructor and read back: results depend on the history of earlier queries' % (fld, how),
+                              key='C18.memo|state|%s|%s' % (m.qn, fld))
     ctx.holds('C18.memo', 'statelessness scan of pricing/alpha/sizing components', None)
 
 
